@@ -396,7 +396,13 @@ def C(c): return Rat.const(c)
 def sym(name): return Rat.atom(atom_in(name))
 
 
-def named(name): return Rat.atom(atom_const(name))
+NAME_ALIAS = {}      # spec-side renaming of named constants (f64 twin pass: 'eps:f32' -> 'eps:f64'); never applied to the driver's facts
+
+
+def named(name): return Rat.atom(atom_const(NAME_ALIAS.get(name, name)))
+
+
+def named_raw(name): return Rat.atom(atom_const(name))
 
 
 def fn(name, *args): return Rat.atom(atom_fn(name, args))
